@@ -4,6 +4,7 @@ import (
 	"fmt"
 	"go/types"
 	"strings"
+	"sync"
 
 	"golang.org/x/tools/go/ssa"
 )
@@ -37,7 +38,7 @@ func (fr *Frame) execCall(ins ssa.Instruction, cc *ssa.CallCommon, result ssa.Va
 	// interface method invocation
 	if cc.IsInvoke() {
 		recv := fr.val(cc.Value)
-		fr.safety("nil-deref", ins, "(not (= "+recv.T+" anyNil))", "invoke "+cc.Method.Name()+" on "+cc.Value.Name())
+		fr.safety("nil-deref", ins, ex.nnAny(recv.T, cc.Value.Type()), "invoke "+cc.Method.Name()+" on "+cc.Value.Name())
 		bind(fr.invoke(ins, cc, recv, args, resSort))
 		return
 	}
@@ -63,6 +64,27 @@ func (fr *Frame) execCall(ins ssa.Instruction, cc *ssa.CallCommon, result ssa.Va
 	bind(fr.callUnknownFunc(ins, cc, fv, args, resSort))
 }
 
+// checkSafetyPre generates the srequires obligations of a safety-only interface contract at an invoke.
+func (fr *Frame) checkSafetyPre(ins ssa.Instruction, c *Contract, key string, sig *types.Signature, all []*Val) {
+	ex := fr.ex
+	env := &Env{ex: ex, vars: map[string]*Val{}, cur: fr.cur, old: fr.cur, fr: fr}
+	names := paramNames(nil, sig, true)
+	for i, n := range names {
+		if i < len(all) && n != "" && n != "_" {
+			env.vars[n] = all[i]
+		}
+	}
+	for k, rq := range c.Requires {
+		label := rq.Label
+		if label == "" {
+			label = fmt.Sprint(k)
+		}
+		g := ex.trBool(rq.Expr, env)
+		ex.vc.oblige("spre", ex.oblName(fmt.Sprintf("%s/spre@%s:%s", fr.key, key, label)), fr.curReach, g, rq.Src, ex.posOf(ins.Pos()), nil)
+		ex.vc.assume(imp(fr.curReach, g))
+	}
+}
+
 // callUnknownFunc: call through an unknown function value (callback).
 func (fr *Frame) callUnknownFunc(ins ssa.Instruction, cc *ssa.CallCommon, fv *Val, args []*Val, resSort *Sort) *Val {
 	ex := fr.ex
@@ -80,9 +102,13 @@ func (fr *Frame) invoke(ins ssa.Instruction, cc *ssa.CallCommon, recv *Val, args
 	// interface contract keyed "Iface.Method"
 	itName := ex.w.typeName(cc.Value.Type())
 	key := itName + "." + cc.Method.Name()
-	if c, ok := ex.cs.Funcs[key]; ok {
+	if c, ok := ex.cs.Funcs[key]; ok && !c.safetyOnly() {
 		all := append([]*Val{recv}, args...)
 		return fr.applyContract(ins, c, key, nil, cc.Signature(), recv, all, resSort)
+	} else if ok && ex.safety {
+		// safety-only interface contract: its preconditions are checked here, effects as without contract
+		all := append([]*Val{recv}, args...)
+		fr.checkSafetyPre(ins, c, key, cc.Signature(), all)
 	}
 	if m, ok := libInvoke[key]; ok {
 		return m(fr, ins, recv, args, resSort)
@@ -104,7 +130,32 @@ func (fr *Frame) invoke(ins ssa.Instruction, cc *ssa.CallCommon, recv *Val, args
 		fr.havocVars(mods)
 	}
 	ex.vc.note("invoke " + key + " without contract: results unconstrained, effects = union of implementations")
-	return fr.havocVal("invoke_"+cc.Method.Name(), resSort)
+	r := fr.havocVal("invoke_"+cc.Method.Name(), resSort)
+	fr.assumeResultsWF(cc.Signature(), r)
+	if !ex.strongIface(cc.Value.Type()) {
+		ex.libResultConvention(key, cc.Signature(), r)
+	}
+	return r
+}
+
+// libResultConvention: standard-library convention (assumed, listed in the evidence): a (T, error) result with a
+// nil error carries a non-nil T when T is a pointer or an interface.
+func (ex *Exec) libResultConvention(name string, sig *types.Signature, r *Val) {
+	if r.S.K == KTuple && len(r.Tup) == 2 && r.Tup[1].S.K == KAny && sig.Results().Len() == 2 && sig.Results().At(1).Type().String() == "error" {
+		x := r.Tup[0]
+		if x.S.K == KRef && x.S.Name != "map" && x.S.Name != "chan" {
+			ex.vc.assume(imp(eq(r.Tup[1].T, "anyNil"), "(> "+x.T+" 0)"))
+			ex.vc.note("library convention assumed: " + name + " returns a non-nil value with a nil error")
+		} else if x.S.K == KAny {
+			ex.vc.assume(imp(eq(r.Tup[1].T, "anyNil"), "(and (not (= "+x.T+" anyNil)) (> (refOf "+x.T+") 0))"))
+			ex.vc.note("library convention assumed: " + name + " returns a non-nil value with a nil error")
+		}
+	}
+	// constructors New* return a non-nil pointer
+	if r.S.K == KRef && sig.Recv() == nil && strings.Contains(name, ".New") {
+		ex.vc.assume("(> " + r.T + " 0)")
+		ex.vc.note("library convention assumed: " + name + " returns a non-nil pointer")
+	}
 }
 
 // havocVars havocs whole state variables.
@@ -181,10 +232,17 @@ func (fr *Frame) callStatic(ins ssa.Instruction, callee *ssa.Function, args []*V
 	if ex.safety && callee.Pkg == ex.pkg && len(callee.Blocks) > 0 {
 		// pointer-to-struct arguments (receiver included) must be non-nil: callees assume it
 		for k, a := range args {
-			if k < len(callee.Params) && a.S.K == KRef && a.S.Name != "" && a.S.Name != "cell" && a.S.Name != "map" && a.S.Name != "chan" && a.S.Name != "func" && a.S.Name != "nil" {
-				if derefsParam(callee, k) {
-					fr.safety("nil-arg", ins, "(not (= "+a.T+" 0))", callee.Name()+" arg "+callee.Params[k].Name())
-				}
+			if k < len(callee.Params) && a.S.K == KAny && ex.strongIface(callee.Params[k].Type()) {
+				fr.safety("boxed-nil", ins, wfIface(a.T), callee.Name()+" arg "+callee.Params[k].Name())
+			}
+			if k >= len(callee.Params) || !derefsParam(callee, k) {
+				continue
+			}
+			if a.S.K == KRef && a.S.Name != "" && a.S.Name != "cell" && a.S.Name != "map" && a.S.Name != "chan" && a.S.Name != "nil" {
+				fr.safety("nil-arg", ins, "(not (= "+a.T+" 0))", callee.Name()+" arg "+callee.Params[k].Name())
+			}
+			if a.S.K == KAny {
+				fr.safety("nil-arg", ins, ex.nnAny(a.T, callee.Params[k].Type()), callee.Name()+" arg "+callee.Params[k].Name())
 			}
 		}
 	}
@@ -193,7 +251,7 @@ func (fr *Frame) callStatic(ins ssa.Instruction, callee *ssa.Function, args []*V
 		return fr.callLib(ins, callee, args, resSort)
 	}
 	key := ex.fnKey(callee)
-	if c, ok := ex.cs.Funcs[key]; ok && !(ex.depth == 0 && false) {
+	if c, ok := ex.cs.Funcs[key]; ok && !(c.safetyOnly() && !ex.safety) {
 		return fr.applyContract(ins, c, key, callee, callee.Signature, nil, args, resSort)
 	}
 	// inline when loop-free (or all loops have specs -> not supported without contract)
@@ -218,7 +276,9 @@ func (fr *Frame) callStatic(ins ssa.Instruction, callee *ssa.Function, args []*V
 	// no contract, not inlinable: havoc static mod set
 	fr.havocCallee(callee, callArgs(ins)...)
 	ex.vc.note("call to " + key + " without contract (has loops): results unconstrained, effects = static mod set")
-	return fr.havocVal("call_"+callee.Name(), resSort)
+	hr := fr.havocVal("call_"+callee.Name(), resSort)
+	fr.assumeResultsWF(callee.Signature, hr)
+	return hr
 }
 
 func hasLoop(fn *ssa.Function) bool {
@@ -246,13 +306,24 @@ func (fr *Frame) applyContract(ins ssa.Instruction, c *Contract, key string, cal
 			env.vars[n] = args[i]
 		}
 	}
-	for k, rq := range c.Requires {
+	nplain := -1
+	for _, rq := range c.Requires {
+		if !rq.SafetyOnly {
+			nplain++ // unlabelled clauses are numbered among the ordinary preconditions only
+		}
+		if rq.SafetyOnly && !ex.safety {
+			continue
+		}
 		label := rq.Label
 		if label == "" {
-			label = fmt.Sprint(k)
+			label = fmt.Sprint(nplain)
 		}
 		g := ex.trBool(rq.Expr, env)
-		vc.oblige("pre", ex.oblName(fmt.Sprintf("%s/pre@%s:%s", fr.key, key, label)), fr.curReach, g, rq.Src, ex.posOf(ins.Pos()), nil)
+		kind := "pre"
+		if rq.SafetyOnly {
+			kind = "spre"
+		}
+		vc.oblige(kind, ex.oblName(fmt.Sprintf("%s/%s@%s:%s", fr.key, kind, key, label)), fr.curReach, g, rq.Src, ex.posOf(ins.Pos()), nil)
 		vc.assume(imp(fr.curReach, g))
 	}
 	// havoc
@@ -272,6 +343,9 @@ func (fr *Frame) applyContract(ins ssa.Instruction, c *Contract, key string, cal
 	}
 	bindResults(env2, sig, res)
 	for _, en := range c.Ensures {
+		if en.SafetyOnly && !ex.safety {
+			continue
+		}
 		vc.assume(imp(fr.curReach, ex.trBool(en.Expr, env2)))
 	}
 	// call-event ghosts: history of calls made, maintained at call sites only
@@ -287,6 +361,7 @@ func (fr *Frame) applyContract(ins ssa.Instruction, c *Contract, key string, cal
 	}
 	// reference results are allocated
 	fr.assumeResultsAllocated(res)
+	fr.assumeResultsWF(sig, res)
 	return res
 }
 
@@ -537,28 +612,130 @@ func callArgs(ins ssa.Instruction) []ssa.Value {
 }
 
 // derefsParam: does the callee dereference its k-th parameter (field access or method call on it)?
+var derefMemo = map[*ssa.Parameter]int{} // 0 unknown, 1 in progress, 2 false, 3 true
+var derefMu sync.Mutex
+
+// derefsParam: does callee dereference / invoke / call its k-th parameter, directly or by handing it to a
+// package function that does? Such parameters are assumed non-nil at entry in safety mode, and exactly
+// those are checked at call sites.
 func derefsParam(callee *ssa.Function, k int) bool {
+	derefMu.Lock()
+	defer derefMu.Unlock()
+	return derefsParamRec(callee, k)
+}
+
+func derefsParamRec(callee *ssa.Function, k int) bool {
 	p := callee.Params[k]
-	refs := p.Referrers()
-	if refs == nil {
+	switch derefMemo[p] {
+	case 1, 2:
 		return false
+	case 3:
+		return true
 	}
-	for _, r := range *refs {
-		switch x := r.(type) {
-		case *ssa.FieldAddr:
-			if x.X == p {
-				return true
+	derefMemo[p] = 1
+	res := false
+	if refs := p.Referrers(); refs != nil {
+		for _, r := range *refs {
+			switch x := r.(type) {
+			case *ssa.FieldAddr:
+				if x.X == p {
+					res = true
+				}
+			case *ssa.UnOp:
+				if x.X == p {
+					res = true
+				}
+			case *ssa.Store:
+				// parameter spilled to a local cell (captured by a closure, or address taken): uses go through the cell
+				if _, isAlloc := x.Addr.(*ssa.Alloc); isAlloc && x.Val == p {
+					res = true
+				}
+			case ssa.CallInstruction:
+				cc := x.Common()
+				if cc.IsInvoke() && cc.Value == p {
+					res = true // interface parameter invoked directly
+				}
+				if !cc.IsInvoke() && cc.Value == p {
+					res = true // function parameter called directly
+				}
+				if f, ok := cc.Value.(*ssa.Function); ok {
+					if len(cc.Args) > 0 && cc.Args[0] == p && f.Signature.Recv() != nil {
+						res = true
+					}
+					if f.Pkg == callee.Pkg && len(f.Blocks) > 0 {
+						for j, a := range cc.Args {
+							if a == p && j < len(f.Params) && derefsParamRec(f, j) {
+								res = true
+							}
+						}
+					}
+				}
 			}
-		case *ssa.UnOp:
-			if x.X == p {
-				return true
-			}
-		case ssa.CallInstruction:
-			cc := x.Common()
-			if f, ok := cc.Value.(*ssa.Function); ok && len(cc.Args) > 0 && cc.Args[0] == p && f.Signature.Recv() != nil {
-				return true
+			if res {
+				break
 			}
 		}
 	}
-	return false
+	if res {
+		derefMemo[p] = 3
+	} else {
+		derefMemo[p] = 2
+	}
+	return res
+}
+
+// strongIface reports whether t is an interface declared in the package under verification: its values are
+// boxed pointers, so "non-nil" means a non-nil interface holding a non-nil pointer.
+func (ex *Exec) strongIface(t types.Type) bool {
+	if t == nil {
+		return false
+	}
+	n, ok := t.(*types.Named)
+	if !ok || n.Obj().Pkg() == nil || ex.pkg == nil || n.Obj().Pkg() != ex.pkg.Pkg {
+		return false
+	}
+	_, isI := n.Underlying().(*types.Interface)
+	return isI
+}
+
+// wfIface: a value of a package interface type is either nil or holds a non-nil pointer (no boxed nil
+// pointers). Safety mode keeps this as an invariant of parameters, results and fields of such types.
+func wfIface(term string) string {
+	return "(or (= " + term + " anyNil) (> (refOf " + term + ") 0))"
+}
+
+// assumeResultsWF assumes wfIface for package-interface results of a summarised call.
+func (fr *Frame) assumeResultsWF(sig *types.Signature, res *Val) {
+	ex := fr.ex
+	if !ex.safety || sig == nil || res == nil {
+		return
+	}
+	n := sig.Results().Len()
+	for k := 0; k < n; k++ {
+		if !ex.strongIface(sig.Results().At(k).Type()) {
+			continue
+		}
+		v := res
+		if n > 1 {
+			if k >= len(res.Tup) {
+				continue
+			}
+			v = res.Tup[k]
+		}
+		if v.S.K == KAny {
+			g := wfIface(v.T)
+			if n > 1 && sig.Results().At(n-1).Type().String() == "error" && len(res.Tup) == n {
+				g = or(not(eq(res.Tup[n-1].T, "anyNil")), g) // only promised together with a nil error
+			}
+			ex.vc.assume(g)
+		}
+	}
+}
+
+// nnAny renders "interface value term is non-nil" for static type t.
+func (ex *Exec) nnAny(term string, t types.Type) string {
+	if ex.strongIface(t) {
+		return "(and (not (= " + term + " anyNil)) (> (refOf " + term + ") 0))"
+	}
+	return "(not (= " + term + " anyNil))"
 }
